@@ -693,6 +693,14 @@ class FilesWorld:
                 allowed.add(os.path.relpath(p, root) + "/")
                 p = os.path.dirname(p)
         unexpected = sorted((p, how) for p, how in ch.items() if p not in allowed)
+        if dumping and tgt_abs:
+            # the property fixes what must be IN the target directory after a dump, not that nothing else may appear there:
+            # additional NEW files under the target (a lock, a backup, a manifest) are counted, not reported
+            inside = os.path.relpath(tgt_abs, root) + "/"
+            extra = [(p, how) for p, how in unexpected if p.startswith(inside) and how == "created"]
+            if extra:
+                stats["extra_new_files_in_target"] += len(extra)
+                unexpected = [x for x in unexpected if x not in extra]
         if not dumping or ok_return or relaxed or outcome[0] == "exc":
             if unexpected:
                 viol.append({"oracle": "unexpected_files", "observed": unexpected[:10],
@@ -717,6 +725,12 @@ class FilesWorld:
                 allowed.add(os.path.relpath(p, root) + "/")
                 p = os.path.dirname(p)
         unexpected = sorted((p, how) for p, how in ch.items() if p not in allowed)
+        if dumping and tgt_abs:
+            inside = os.path.relpath(tgt_abs, root) + "/"
+            extra = [(p, how) for p, how in unexpected if p.startswith(inside) and how == "created"]
+            if extra:
+                stats["extra_new_files_in_target"] += len(extra)
+                unexpected = [x for x in unexpected if x not in extra]
         if unexpected:
             viol.append({"oracle": "unexpected_files", "observed": unexpected[:10], "expected": "subset of %s" % sorted(allowed)[:12]})
         stats["conservation_checked"] += 1
